@@ -621,6 +621,102 @@ func oneShot(kind string, tt *TermTable, pc []*Term, extra *Term, timeout time.D
 	return Unknown
 }
 
+// oneShotModel runs a fresh solver process on the whole query and, on sat, reads a model.
+func oneShotModel(kind string, tt *TermTable, pc []*Term, extra *Term, timeout time.Duration, wantModel bool) (Res, *Model) {
+	t0 := time.Now()
+	defer func() { atomic.AddInt64(&gStats.TimeNs, int64(time.Since(t0))) }()
+	atomic.AddInt64(&gStats.Queries, 1)
+	txt := oneShotText(tt, pc, extra)
+	all := append(append([]*Term{}, pc...), extra)
+	if extra == nil {
+		all = pc
+	}
+	vars := collectVars(all)
+	ufs := collectUFApps(all)
+	var refs []string
+	for _, v := range vars {
+		refs = append(refs, v.Name)
+	}
+	for _, u := range ufs {
+		refs = append(refs, u.ref())
+	}
+	if wantModel && len(refs) > 0 {
+		txt = "(set-option :produce-models true)\n" + txt + "(get-value (" + strings.Join(refs, " ") + "))\n"
+	}
+	var bin string
+	var args []string
+	switch kind {
+	case "cvc5-int":
+		bin, args = "cvc5", []string{"--lang=smt2", "--solve-bv-as-int=sum", fmt.Sprintf("--tlimit=%d", int(timeout/time.Millisecond))}
+	case "cvc5":
+		bin, args = "cvc5", []string{"--lang=smt2", fmt.Sprintf("--tlimit=%d", int(timeout/time.Millisecond))}
+	case "z3-new":
+		bin, args = "z3-new", []string{"-in", fmt.Sprintf("-T:%d", int(timeout/time.Second)+1)}
+	default:
+		bin, args = "/usr/bin/z3", []string{"-in", fmt.Sprintf("-T:%d", int(timeout/time.Second)+1)}
+		txt = strings.Replace(txt, "(set-logic ALL)\n", "", 1)
+	}
+	noteBackend(kind + "(one-shot)")
+	cmd := exec.Command(bin, args...)
+	cmd.Stdin = strings.NewReader(txt)
+	var out bytes.Buffer
+	cmd.Stdout = &out
+	done := make(chan error, 1)
+	if err := cmd.Start(); err != nil {
+		return Unknown, nil
+	}
+	go func() { done <- cmd.Wait() }()
+	select {
+	case <-done:
+	case <-time.After(timeout + 5*time.Second):
+		cmd.Process.Kill()
+		<-done
+		atomic.AddInt64(&gStats.UnknownN, 1)
+		return Unknown, nil
+	}
+	o := strings.TrimSpace(out.String())
+	first := o
+	rest := ""
+	if i := strings.Index(o, "\n"); i >= 0 {
+		first, rest = strings.TrimSpace(o[:i]), o[i+1:]
+	}
+	switch first {
+	case "unsat":
+		atomic.AddInt64(&gStats.UnsatN, 1)
+		return Unsat, nil
+	case "sat":
+		atomic.AddInt64(&gStats.Sat, 1)
+		if !wantModel {
+			return Sat, nil
+		}
+		m := &Model{Vars: map[string]uint64{}, UFs: map[string]uint64{}}
+		if len(refs) == 0 {
+			return Sat, m
+		}
+		vals, err := parseValues(rest, len(refs))
+		if err != nil {
+			return Unknown, nil
+		}
+		for i, v := range vars {
+			m.Vars[v.Name] = vals[i]
+		}
+		for i, u := range ufs {
+			key := u.Name + "("
+			for k, a := range u.Args {
+				if k > 0 {
+					key += ","
+				}
+				key += fmt.Sprint(m.Eval(a))
+			}
+			key += ")"
+			m.UFs[key] = vals[len(vars)+i]
+		}
+		return Sat, m
+	}
+	atomic.AddInt64(&gStats.UnknownN, 1)
+	return Unknown, nil
+}
+
 // Portfolio is the per-worker front end: primary z3, bv-as-int for heavy
 // arithmetic, fallbacks on unknown, optional cross-check.
 type Portfolio struct {
@@ -669,10 +765,8 @@ func (p *Portfolio) Check(pc []*Term, extra *Term, wantModel bool, kind string) 
 	var res Res
 	var m *Model
 	if heavy {
-		if p.intSolv == nil {
-			p.intSolv = NewSolver("cvc5-int", p.tt, p.timeout)
-		}
-		res, m = p.intSolv.Check(pc, extra, wantModel)
+		// multiply/divide kernels: integer encoding in a fresh cvc5 (incremental mode is much slower there)
+		res, m = oneShotModel("cvc5-int", p.tt, pc, extra, p.timeout, wantModel)
 		if res == Unknown {
 			atomic.AddInt64(&gStats.Fallbacks, 1)
 			res, m = p.primary.Check(pc, extra, wantModel)
@@ -681,16 +775,9 @@ func (p *Portfolio) Check(pc []*Term, extra *Term, wantModel bool, kind string) 
 		res, m = p.primary.Check(pc, extra, wantModel)
 		if res == Unknown {
 			atomic.AddInt64(&gStats.Fallbacks, 1)
-			r2 := oneShot("cvc5", p.tt, pc, extra, p.timeout)
-			if r2 == Unsat {
-				res = Unsat
-			} else if r2 == Sat && !wantModel {
-				res = Sat
-			} else if r2 == Sat {
-				if p.intSolv == nil {
-					p.intSolv = NewSolver("cvc5-int", p.tt, p.timeout)
-				}
-				res, m = p.intSolv.Check(pc, extra, wantModel)
+			res, m = oneShotModel("cvc5-int", p.tt, pc, extra, p.timeout, wantModel)
+			if res == Unknown {
+				res, m = oneShotModel("cvc5", p.tt, pc, extra, p.timeout, wantModel)
 			}
 		}
 	}
